@@ -278,8 +278,35 @@ func TestC01Authenticity(t *testing.T) {
 			*get(y) = *get(y) + "00"
 			alts = append(alts, alt{f + "-extended", y})
 		}
-		for _, a := range alts {
+		// (d) the same through the JSON path (the admission gate judges the parsed event):
+		// the signed event written as text by the harness's own writer must parse to the
+		// signed fields and be authentic; an altered one must not become authentic by parsing
+		wire := func(x *mocrelay.Event, label string) (*mocrelay.Event, string, error) {
+			text := gen.Render(gen.WireEventDoc(t, x, label), &gen.RenderOpts{T: t, EscapeVar: rapid.IntRange(0, 3).Draw(t, label+"esc") == 0})
+			var back mocrelay.Event
+			err := json.Unmarshal([]byte(text), &back)
+			return &back, text, err
+		}
+		back, text, werr := wire(e, "w.")
+		if werr != nil {
+			hx.Fail(t, ev.Failure{Property: "C01", Signature: "signed-not-authentic-wire", Clause: "every correctly signed event is reported authentic (received as JSON text)",
+				Case: map[string]any{"text": text}, Observed: "decode error: " + werr.Error(), Expected: "true"})
+		}
+		if ok, sv := authentic(back); !ok || hx.JSON(gen.Norm(back)) != hx.JSON(gen.Norm(e)) {
+			hx.Fail(t, ev.Failure{Property: "C01", Signature: "signed-not-authentic-wire", Clause: "every correctly signed event is reported authentic (received as JSON text), and what is judged is what was signed",
+				Case: map[string]any{"text": text}, Observed: sv + " parsed=" + hx.JSON(back), Expected: "true, parsed fields equal to the signed ones"})
+		}
+		col.Label("path:json-text")
+		for i, a := range alts {
 			col.Label("alteration:" + strings.SplitN(a.name, "/", 2)[0])
+			if i == len(alts)-1 || i%4 == 0 {
+				if b, txt, err := wire(a.ev, fmt.Sprintf("wa%d.", i)); err == nil {
+					if ok, _ := authentic(b); ok {
+						hx.Fail(t, ev.Failure{Property: "C01", Signature: "altered-authentic-wire", Clause: "an altered event received as JSON text is not authentic (" + a.name + ")",
+							Case: map[string]any{"original": caseJSON(), "alteration": a.name, "text": txt}, Observed: "true", Expected: "false or error"})
+					}
+				}
+			}
 			if ok, _ := authentic(a.ev); ok {
 				hx.Fail(t, ev.Failure{Property: "C01", Signature: "altered-authentic", Clause: "changing a signed field, the id, the pubkey or the signature makes the event not authentic (" + a.name + ")",
 					Case: map[string]any{"original": caseJSON(), "alteration": a.name, "altered": a.ev}, Observed: "true", Expected: "false or error"})
